@@ -426,17 +426,24 @@ func TestC11_RedirectTargets(t *testing.T) {
 			}
 		}
 		// the same request through PAR
-		if inject == "none" && rapid.IntRange(0, 3).Draw(rt, "viaPAR") == 0 {
+		if inject == "none" && rapid.IntRange(0, 2).Draw(rt, "viaPAR") == 0 {
 			f := url.Values{}
 			for k, v := range q {
 				f[k] = v
 			}
+			pushOmits := false
+			if nreg == 1 && !strings.Contains(q.Get("scope"), "openid") && rapid.Bool().Draw(rt, "pushOmitsRedirect") {
+				// exactly one registered URI: the push may leave redirect_uri out
+				f.Del("redirect_uri")
+				pushOmits = true
+				h.Label("par-push-without-redirect_uri")
+			}
 			pr := w.PAR(f, w.BasicFor("c11"))
 			if pr.RequestURI != "" {
-				if qual == h.No {
+				if qual == h.No && !pushOmits {
 					h.Violate(rt, "C11/par-accepted-unqualified-redirect", "PAR accepted: %s", desc)
 				}
-				if sent {
+				if sent && !pushOmits {
 					if tu, err := url.Parse(reqStr); err == nil && tu.Scheme == "http" {
 						hn := tu.Hostname()
 						if !(hn == "localhost" || strings.HasSuffix(hn, ".localhost") || isLoopbackLiteral(hn)) {
@@ -444,12 +451,18 @@ func TestC11_RedirectTargets(t *testing.T) {
 						}
 					}
 				}
-				ar := w.Authorize(url.Values{"client_id": {"c11"}, "request_uri": {pr.RequestURI}}, h.Consent{})
+				uq := url.Values{"client_id": {"c11"}, "request_uri": {pr.RequestURI}}
+				if rapid.Bool().Draw(rt, "frontChannelRedirect") {
+					// parameters sent alongside the request_uri must not influence where the response goes
+					uq.Set("redirect_uri", rapid.SampledFrom([]string{"https://attacker.example/collect", "http://127.0.0.1:9/x", reqStr + "/evil", "https://rp.example.evil.example/cb"}).Draw(rt, "frontRedirect"))
+					h.Label("par-use-with-front-channel-redirect_uri")
+				}
+				ar := w.Authorize(uq, h.Consent{})
 				tgt := ar.Location
 				if ar.Mode == "form_post" {
 					tgt = ar.FormURL
 				}
-				if tgt != "" {
+				if tgt != "" && tgt != "#ZgotmplZ" {
 					if ok, reason := targetOK(tgt, ar.Mode, reg); !ok {
 						h.Violate(rt, "C11/redirect-to-unregistered-target", "after PAR: %s: target %q; %s", reason, tgt, desc)
 					}
